@@ -62,8 +62,9 @@ try:
     meta["caught_by"] = sorted(c for c, rs in caught.items() if any(x["rc"] == 1 for x in rs))
     out = os.path.join(VERIF, "seeded", a.id)
     os.makedirs(out, exist_ok=True)
-    shutil.copy(a.patch, os.path.join(out, "patch.diff"))
-    shutil.copy(a.demo, os.path.join(out, "demo.py"))
+    for src, dst in ((a.patch, os.path.join(out, "patch.diff")), (a.demo, os.path.join(out, "demo.py"))):
+        if os.path.realpath(src) != os.path.realpath(dst):
+            shutil.copy(src, dst)
     json.dump(meta, open(os.path.join(out, "meta.json"), "w"), indent=1)
     print("%s confirmed=%s tests=%r demo pristine rc=%d changed rc=%d caught_by=%s" % (a.id, ok, last, meta["demo_on_pristine"]["rc"], meta["demo_on_changed_tree"]["rc"], meta["caught_by"]))
     for c, rs in caught.items():
